@@ -428,7 +428,7 @@ func generate(R *core.Rand, thorough bool, emit func(class string, nontrivial bo
 				continue
 			}
 			for _, a := range m.args {
-				// quick: every (variant, mutator, arg) in one context chosen by the seed, plus tip; thorough: all contexts x caches
+				// quick: every (variant, mutator, arg) in two different contexts and cache modes chosen by the seed; thorough: all contexts x both cache modes
 				var picks []recipe
 				if thorough {
 					for _, c := range ctxs {
@@ -437,10 +437,11 @@ func generate(R *core.Rand, thorough bool, emit func(class string, nontrivial bo
 						}
 					}
 				} else {
-					c := ctxs[R.Intn(len(ctxs))]
-					picks = append(picks, recipe{vi, c, R.Intn(2), m.name, a})
-					if c != "tip" && R.Chance(1, 3) {
-						picks = append(picks, recipe{vi, "tip", R.Intn(2), m.name, a})
+					k := R.Intn(len(ctxs))
+					picks = append(picks, recipe{vi, ctxs[k], R.Intn(2), m.name, a})
+					{
+						k2 := (k + 1 + R.Intn(len(ctxs)-1)) % len(ctxs)
+						picks = append(picks, recipe{vi, ctxs[k2], R.Intn(2), m.name, a})
 					}
 				}
 				for _, r := range picks {
